@@ -55,6 +55,19 @@ class Obj(object):
             self.q = self.q + 1
             return x - self.p
         return self.p - x
+class Falsy(object):
+    """An object whose truth value is False (an empty container), with ordinary methods."""
+    def __init__(self):
+        self.n = 0
+    def __len__(self):
+        return 0
+    def bump(self, x, k=1):
+        LOG.append(('bump', _r(x), _r(k)))
+        self.n = self.n + 1
+        if x > 2:
+            return x - k
+        return x + k
+FZ = Falsy()
 class LI(object):
     def __init__(self, tag, seq):
         self.tag = tag
@@ -106,6 +119,7 @@ P2 = functools.partial(H2, y=2)
 G1 = 1
 G2 = 10
 zG3 = 100      # a global whose name sorts after the local variables
+NL = [0, 0, 0]  # a module-level list for negative-index stores
 '''
 
 PARAMS = ['a', 'b', 'c', 'xs', 'o', 'd']
@@ -114,7 +128,7 @@ SIG = 'a, b, c, xs, o, d'
 PLAIN_VARS = ['v0', 'v1', 'v2', 'v3', 'v4', 'v5']
 ADV_ROOTS = ['do_return', 'retval_', 'break_', 'continue_', 'fscope', 'lscope',
              'get_state', 'set_state', 'if_body', 'else_body', 'loop_body',
-             'loop_test', 'extra_test', 'itr', 'vars_']
+             'loop_test', 'extra_test', 'itr', 'vars_', 'cmp_l', 'cmp_r']
 LOCAL_POOLS = {1: ['m0', 'm1', 'm2'], 2: ['n0', 'n1', 'n2']}
 
 
@@ -196,6 +210,7 @@ class Profile(object):
   use_augassign = True
   use_tuple_assign = True
   use_unusual = False
+  use_docstrings = False    # multi-line docstrings with under-indented continuation lines
   use_base_exc = True       # raise / catch a BaseException that is not an Exception
   comp_shadow = False       # C08: comprehensions whose first iterable mentions the target's own name
   hostile_finally = False   # C05 only: try statements and jumps inside finally blocks
@@ -230,7 +245,7 @@ def profile(name):
   if name == 'c11':
     return Profile(name='c11', adversarial_idents=True, unsafe_reads=0.0, implicit_exc=0.0)
   if name == 'c17':
-    return Profile(name='c17', use_unusual=True, unsafe_reads=0.0, implicit_exc=0.0)
+    return Profile(name='c17', use_unusual=True, unsafe_reads=0.0, implicit_exc=0.0, use_docstrings=True)
   if name == 'c03':
     return Profile(name='c03', use_directives=True, unsafe_reads=0.02)
   raise KeyError(name)
@@ -308,7 +323,7 @@ class Gen(object):
       pool = []
       for r in ADV_ROOTS:
         pool.append(r)
-      for r in ADV_ROOTS[:15]:
+      for r in ADV_ROOTS:
         pool.append(r + '_1')
       self.rng.shuffle(pool)
       self.varpool = pool[:6]
@@ -385,7 +400,7 @@ class Gen(object):
   def call(self, fc, blk, depth):
     choices = ['builtin', 'builtin']
     if not self.p.pure:
-      choices += ['H', 'H2', 'meth', 'partial', 'R']
+      choices += ['H', 'H2', 'meth', 'partial', 'R', 'falsy_meth']
     else:
       choices += ['pureH']
     if self.meta['helpers'] and fc.level == 0 and fc.name not in self.meta['helpers'][:1]:
@@ -430,6 +445,8 @@ class Gen(object):
       return 'H2(%s)' % e()
     if k == 'meth':
       return 'o.meth(%s)' % e()
+    if k == 'falsy_meth':
+      return self.rng.choice(['FZ.bump(%s)', 'FZ.bump(%s, k=2)']) % e()
     if k == 'partial':
       return self.rng.choice(['P1(%s)', 'P1(y=%s)', 'P2(%s)']) % e()
     if k == 'R':
@@ -607,8 +624,11 @@ class Gen(object):
     elif r < 0.8 and self.p.implicit_exc and not fc.in_try:
       fc.may_raise = True
       self.emit(ind, 'xs[0] = %s' % self.expr(fc, blk, 1))
-    else:
+    elif r < 0.9 or self.p.pure:
       self.emit(ind, "d['m'] = %s" % self.expr(fc, blk, 1))
+    else:
+      # constant-index element state with a negative index / a negative key
+      self.emit(ind, self.rng.choice(["d[-1] = %s", "NL[-1] = %s", "NL[-2] = %s"]) % self.expr(fc, blk, 1))
 
   def s_unusual(self, fc, blk, ind, depth):
     self.uid += 1
@@ -1018,6 +1038,13 @@ class Gen(object):
     fc.is_helper = is_helper
     self.emit(ind, 'def %s(%s):' % (name, SIG))
     blk = Block({'a', 'b', 'c'}, set())
+    if self.p.use_docstrings and self.chance(0.5):
+      self.emit(ind + 1, '"""Docstring of %s, first line.' % name)
+      self.lines.append('')
+      self.lines.append('  continuation line indented less than the body')
+      self.emit(ind + 1, 'continuation line at body level, with a quote \' here')
+      self.lines.append('at column zero')
+      self.emit(ind + 1, '"""')
     if self.p.use_global and self.chance(0.3):
       gs = self.rng.sample(['G1', 'G2', 'zG3'], self.rng.randint(1, 2))
       self.emit(ind + 1, 'global %s' % ', '.join(gs))
